@@ -31,7 +31,7 @@ ASSUMPTIONS = [
 ]
 RULE = ('exhaustive: every unordered pair of programs from a fixed pool of 17 short programs (read/write of plain, optimistic=False, '
         'float, float optimistic=True and volatile attributes, increments, read-own-write, NULL values) x every complete interleaving, '
-        'plus seeded triples of 2-operation programs x every interleaving; plus 11 multi-transaction session programs (explicit commit() in the middle, get_for_update, created object) x every other-session commit x every insertion position (pairs for two programs); non-trivial = an UPDATE carried at least one optimistic '
+        'plus seeded triples of 2-operation programs x every interleaving; plus 12 multi-transaction session programs (explicit commit() in the middle, get_for_update, created object) x every other-session commit x every insertion position (pairs for two programs); non-trivial = an UPDATE carried at least one optimistic '
         'criterion or a session ended in OptimisticCheckError; distinct = distinct (initial row, programs, schedule)')
 
 K = 6          # attributes a b c f g v
@@ -310,6 +310,7 @@ LIFE_PROGS = [
     ([10, 20, 30], [R(0), LK, FU, WP(1, 0, 1), LK]),
     (None,         [CR([1, 2, 3]), LK, FU, W(0, 4), LK, R(1), W(0, 5), LK]),
     ([10, None, 30], [FU, R(1), LK, W(0, 2), LK]),
+    ([10, 20, 30], [R(0), W(1, 3), LK, W(1, 4), LK]),        # a read attribute stays protected after a flush that wrote another one
 ]
 LIFE_ACTS = [X(0, 70), X(1, 71), X(2, 72), X(1, None)]
 
